@@ -94,7 +94,7 @@ func c08Check(o *Oracle, c minkCase) (ok bool, kind, detail, resp string) {
 func init() {
 	stages["c08-search"] = func(ctx *Ctx, cnt func(q, t int) int, replay string) Result {
 		col := NewCollector("C08", "search", "patterns (convex and non-convex grid polygons, stars, rectangles, either orientation) × paths (closed and open, incl. single-point, 2-point and collinear); the result is compared as a region with the union of the parallelograms path-edge ⊕ (±pattern-edge) (the swept set, see Props/C08) outside the 2-band of the parallelogram edges, checked canonical and non-overlapping, and sum(A,B) compared with sum(B,A); non-trivial = non-empty result with ≥ 2 judged faces")
-		parallelFor(ctx, cnt(1500, 100000), true, col, func(o *Oracle, i int) {
+		parallelFor(ctx, cnt(8000, 100000), true, col, func(o *Oracle, i int) {
 			r := NewRng(ctx.Seed, "c08", i)
 			g := GenCfg{Grid: r.Range(2, 5), Unit: 10}
 			g2 := GenCfg{Grid: r.Range(2, 6), Unit: 10, Ox: int64(r.Range(-3, 3)) * 10, Oy: int64(r.Range(-3, 3)) * 10}
